@@ -24,6 +24,9 @@ pub struct Flags {
     pub funcs: bool,
     /// allow break/continue inside a block that is (part of) an operand
     pub brk_in_operand: bool,
+    /// 0 = none, 1 = lambda-heavy, 2 = option/?/!-heavy
+    #[serde(default)]
+    pub bias: u8,
     /// statement budget of the main block
     pub size: u8,
     pub depth: u8,
@@ -46,6 +49,7 @@ impl Flags {
             matches: true,
             funcs: true,
             brk_in_operand: false,
+            bias: 0,
             size,
             depth,
         }
@@ -197,10 +201,10 @@ impl<'a> G<'a> {
             3,
             if self.fl.void_data { 1 } else { 0 },
             if d > 0 { 3 } else { 0 },
-            if d > 0 { 3 } else { 0 },
-            if self.fl.structs && !self.structs.is_empty() { 2 } else { 0 },
-            if self.fl.enums && !self.enums.is_empty() { 2 } else { 0 },
-            if self.fl.options && d > 0 { 2 } else { 0 },
+            if d > 0 { 4 } else { 0 },
+            if self.fl.structs && !self.structs.is_empty() { 4 } else { 0 },
+            if self.fl.enums && !self.enums.is_empty() { 3 } else { 0 },
+            if self.fl.options && d > 0 { 3 } else { 0 },
         ];
         match self.t.choose(&w) {
             0 => T::Int,
@@ -344,15 +348,27 @@ impl<'a> G<'a> {
             3,
             2,
             if fun_rets.is_empty() { 0 } else { 5 },
-            if arrs.is_empty() || (!self.fl.errors) { 0 } else { 3 },
-            if struct_fields.is_empty() { 0 } else { 4 },
-            if opts.is_empty() || !self.fl.errors { 0 } else { 2 },
+            if arrs.is_empty() || (!self.fl.errors) { 0 } else { 5 },
+            if struct_fields.is_empty() { 0 } else { 8 },
+            if opts.is_empty() || !self.fl.errors { 0 } else { 4 },
             if self.fl.matches { 3 } else { 0 },
             if lambdas.is_empty() { 0 } else { 5 },
             if can_rec { 4 } else { 0 },
             if arrs.is_empty() || !self.fl.errors || self.no_len_mut > 0 || self.lambda_depth > 0 { 0 } else { 1 },
-            if try_ok { 3 } else { 0 },
+            if try_ok { 8 } else { 0 },
         ];
+        let mut w = w;
+        if self.fl.bias == 1 {
+            w[10] *= 5;
+            if matches!(ty, T::Fun(..)) {
+                w[2] *= 3;
+            }
+        }
+        if self.fl.bias == 2 {
+            w[8] *= 4;
+            w[13] *= 4;
+            w[5] *= 2;
+        }
         match self.t.choose(&w) {
             0 => self.literal(ty, d),
             1 => {
@@ -737,15 +753,18 @@ impl<'a> G<'a> {
     }
 
     fn stmt_let(&mut self, d: usize) -> S {
-        let ty = if self.fl.lambdas && self.t.flip(1, 8) && self.lambda_depth < 2 {
+        let lam_den = if self.fl.bias == 1 { 3 } else { 8 };
+        let ty = if self.fl.lambdas && self.t.flip(1, lam_den) && self.lambda_depth < 2 {
             let n = 1 + self.t.n(2);
             let args: Vec<T> = (0..n).map(|_| self.scalar_ty()).collect();
             let r = self.scalar_ty();
             T::Fun(args, Box::new(r))
+        } else if self.fl.bias == 2 && self.t.flip(1, 3) {
+            T::Opt(Box::new(self.scalar_ty()))
         } else {
             self.data_ty(2)
         };
-        let mutable = self.t.n(3) == 2;
+        let mutable = self.t.n(3) == 2 || (self.fl.bias == 1 && self.t.flip(1, 2));
         // empty array literal: only here, always annotated
         let (e, force_annot) = if matches!(ty, T::Arr(_)) && self.t.flip(1, 6) {
             self.label("empty-array");
@@ -779,6 +798,236 @@ impl<'a> G<'a> {
     }
 
     pub fn stmt(&mut self, d: usize) -> S {
+        if self.fl.bias != 0 && self.lambda_depth == 0 && self.operand_depth == 0 && self.t.flip(2, 5) {
+            self.nodes += 8;
+            return if self.fl.bias == 1 { self.scenario_lambda(d) } else { self.scenario_try(d) };
+        }
+        self.stmt_plain(d)
+    }
+
+    fn vinfo(name: &str, ty: T, mutable: bool) -> VarInfo {
+        VarInfo { name: name.to_string(), ty, mutable, captured: false }
+    }
+
+    /// C19 shapes: capture-at-creation observable through later reassignment, nested lambdas
+    /// whose free variables are used only by the inner lambda, lambdas created in loops,
+    /// per-invocation locals, lambdas returned from functions.
+    fn scenario_lambda(&mut self, d: usize) -> S {
+        self.label("scenario-lambda");
+        let mut st: Vec<S> = vec![];
+        self.scopes.push(vec![]);
+        let add = |a: E, b: E| E::Bin(Op::Add, Box::new(a), Box::new(b));
+        let makers: Vec<String> = self.funcs.iter().filter(|f| f.name.starts_with("mk")).map(|f| f.name.clone()).collect();
+        let kind = self.t.choose(&[3, 3, 3, 2, if makers.is_empty() { 0 } else { 3 }]);
+        match kind {
+            0 => {
+                // stale capture of a scalar var
+                self.label("capture-then-reassign");
+                let ty = self.scalar_ty();
+                let x = self.fresh("c");
+                let init = self.literal(&ty, 0);
+                st.push(S::Let { mutable: true, name: x.clone(), ty: ty.clone(), annotate: false, e: init });
+                self.declare(&x, ty.clone(), true);
+                let pty = self.scalar_ty();
+                let f = self.fresh("f");
+                let lam = self.lambda_using(&[pty.clone()], &ty, Some(&x), d);
+                st.push(S::Let { mutable: false, name: f.clone(), ty: T::Fun(vec![pty.clone()], Box::new(ty.clone())), annotate: self.t.flip(1, 3), e: lam });
+                self.declare(&f, T::Fun(vec![pty.clone()], Box::new(ty.clone())), false);
+                let a0 = self.expr(&pty, 1);
+                st.push(S::Print(E::CallV(f.clone(), vec![a0])));
+                let newv = match &ty {
+                    T::Int => add(E::Var(x.clone()), E::Int(1 + self.t.n(5) as i64)),
+                    T::Bool => E::Not(Box::new(E::Var(x.clone()))),
+                    _ => E::Bin(Op::Cat, Box::new(E::Var(x.clone())), Box::new(E::Str("!".into()))),
+                };
+                st.push(S::Assign(LV::Var(x.clone()), newv));
+                let a1 = self.expr(&pty, 1);
+                st.push(S::Print(E::CallV(f.clone(), vec![a1])));
+                st.push(S::Print(E::Var(x)));
+            }
+            1 => {
+                // nested lambdas: k is used only by the innermost one
+                self.label("nested-inner-only-capture");
+                let k = self.fresh("k");
+                st.push(S::Let { mutable: true, name: k.clone(), ty: T::Int, annotate: false, e: E::Int(self.t.n(9) as i64) });
+                self.declare(&k, T::Int, true);
+                let (a, b, c) = (self.fresh("p"), self.fresh("p"), self.fresh("p"));
+                let (inner, mid, outer) = (self.fresh("in"), self.fresh("mid"), self.fresh("out"));
+                let three = self.fl.nested_lambdas && self.t.flip(1, 2);
+                let innermost_body = if three { add(add(E::Var(a.clone()), E::Var(b.clone())), add(E::Var(c.clone()), E::Var(k.clone()))) } else { add(add(E::Var(a.clone()), E::Var(b.clone())), E::Var(k.clone())) };
+                let fun1 = T::Fun(vec![T::Int], Box::new(T::Int));
+                let outer_lam = if three {
+                    let inner_lam = E::Lam(vec![(c.clone(), T::Int)], Box::new(innermost_body));
+                    let mid_body = Block { stmts: vec![S::Let { mutable: false, name: inner.clone(), ty: fun1.clone(), annotate: false, e: inner_lam }], tail: Some(Box::new(add(E::CallV(inner.clone(), vec![E::Var(b.clone())]), E::Int(1)))) };
+                    let mid_lam = E::Lam(vec![(b.clone(), T::Int)], Box::new(E::Blk(mid_body)));
+                    let outer_body = Block { stmts: vec![S::Let { mutable: false, name: mid.clone(), ty: fun1.clone(), annotate: false, e: mid_lam }], tail: Some(Box::new(add(E::CallV(mid.clone(), vec![E::Var(a.clone())]), E::Int(2)))) };
+                    E::Lam(vec![(a.clone(), T::Int)], Box::new(E::Blk(outer_body)))
+                } else {
+                    let inner_lam = E::Lam(vec![(b.clone(), T::Int)], Box::new(innermost_body));
+                    let outer_body = Block { stmts: vec![S::Let { mutable: false, name: inner.clone(), ty: fun1.clone(), annotate: false, e: inner_lam }], tail: Some(Box::new(add(E::CallV(inner.clone(), vec![E::Var(a.clone())]), E::Int(1)))) };
+                    E::Lam(vec![(a.clone(), T::Int)], Box::new(E::Blk(outer_body)))
+                };
+                st.push(S::Let { mutable: false, name: outer.clone(), ty: fun1.clone(), annotate: false, e: outer_lam });
+                self.declare(&outer, fun1, false);
+                st.push(S::Print(E::CallV(outer.clone(), vec![E::Int(self.t.n(5) as i64)])));
+                st.push(S::OpAssign(LV::Var(k.clone()), Op::Add, E::Int(100)));
+                st.push(S::Print(E::CallV(outer, vec![E::Int(self.t.n(5) as i64)])));
+                st.push(S::Print(E::Var(k)));
+            }
+            2 => {
+                // lambdas created in a loop capture the loop variable / a counter at that iteration
+                self.label("loop-captures");
+                let fs = self.fresh("fs");
+                let fun1 = T::Fun(vec![T::Int], Box::new(T::Int));
+                st.push(S::Let { mutable: false, name: fs.clone(), ty: T::Arr(Box::new(fun1.clone())), annotate: true, e: E::ArrLit(vec![]) });
+                let i = self.fresh("i");
+                let j = self.fresh("j");
+                let n = self.fresh("p");
+                let cnt = 1 + self.t.n(4) as i64;
+                st.push(S::Let { mutable: true, name: j.clone(), ty: T::Int, annotate: false, e: E::Int(0) });
+                let lam = E::Lam(vec![(n.clone(), T::Int)], Box::new(add(E::Bin(Op::Mul, Box::new(E::Var(n.clone())), Box::new(E::Int(10))), add(E::Var(i.clone()), E::Var(j.clone())))));
+                let body = Block { stmts: vec![S::OpAssign(LV::Var(j.clone()), Op::Add, E::Int(7)), S::Push(E::Var(fs.clone()), lam)], tail: None };
+                st.push(S::ForInt { var: i, n: E::Int(cnt), body });
+                let g = self.fresh("g");
+                st.push(S::ForArr { pat: P::Bind(g.clone()), arr: E::Var(fs.clone()), body: Block { stmts: vec![S::Print(E::CallV(g, vec![E::Int(1)]))], tail: None } });
+                st.push(S::Print(E::Var(j)));
+            }
+            3 => {
+                // every invocation has its own locals
+                self.label("per-call-locals");
+                let c = self.fresh("f");
+                let (n, t) = (self.fresh("p"), self.fresh("t"));
+                let fun1 = T::Fun(vec![T::Int], Box::new(T::Int));
+                let body = Block { stmts: vec![S::Let { mutable: true, name: t.clone(), ty: T::Int, annotate: false, e: E::Var(n.clone()) }, S::OpAssign(LV::Var(t.clone()), Op::Add, E::Int(1))], tail: Some(Box::new(E::Bin(Op::Mul, Box::new(E::Var(t)), Box::new(E::Int(2))))) };
+                st.push(S::Let { mutable: false, name: c.clone(), ty: fun1.clone(), annotate: false, e: E::Lam(vec![(n, T::Int)], Box::new(E::Blk(body))) });
+                st.push(S::Print(E::CallV(c.clone(), vec![E::Int(self.t.n(5) as i64)])));
+                st.push(S::Print(E::CallV(c.clone(), vec![E::CallV(c.clone(), vec![E::Int(2)])])));
+                self.declare(&c, fun1, false);
+            }
+            _ => {
+                // lambda returned from a function keeps the arguments of that call
+                self.label("returned-lambda");
+                let mk = makers[self.t.n(makers.len())].clone();
+                let fun1 = T::Fun(vec![T::Int], Box::new(T::Int));
+                let (f1, f2) = (self.fresh("f"), self.fresh("f"));
+                st.push(S::Let { mutable: false, name: f1.clone(), ty: fun1.clone(), annotate: false, e: E::Call(mk.clone(), vec![E::Int(self.t.n(9) as i64)]) });
+                st.push(S::Let { mutable: false, name: f2.clone(), ty: fun1.clone(), annotate: false, e: E::Call(mk, vec![E::Int(100)]) });
+                st.push(S::Print(add(E::CallV(f1.clone(), vec![E::Int(1)]), E::CallV(f2.clone(), vec![E::Int(1)]))));
+                self.declare(&f1, fun1.clone(), false);
+                self.declare(&f2, fun1, false);
+            }
+        }
+        // keep the scenario's lambdas visible for later statements of this block
+        let decls = self.scopes.pop().unwrap();
+        let keep: Vec<VarInfo> = decls;
+        // the scenario is emitted as `if true { ... }`; its bindings are local to that block
+        let _ = keep;
+        S::If(E::Bool(true), Block { stmts: st, tail: None }, None)
+    }
+
+    /// like `lambda`, but the body is forced to read `must_use` (so the capture matters)
+    fn lambda_using(&mut self, args: &[T], ret: &T, must_use: Option<&str>, d: usize) -> E {
+        let lam = self.lambda(args, ret, d);
+        let (Some(name), E::Lam(ps, body)) = (must_use, lam.clone()) else { return lam };
+        let combined = match ret {
+            T::Int => E::Bin(Op::Add, Box::new(E::Var(name.to_string())), body),
+            T::Bool => E::Bin(Op::Eq, Box::new(E::Var(name.to_string())), body),
+            T::Str => E::Bin(Op::Cat, Box::new(E::Var(name.to_string())), body),
+            _ => *body,
+        };
+        E::Lam(ps, Box::new(combined))
+    }
+
+    /// C23 shapes: `?` in operand / argument / index / condition / scrutinee positions with
+    /// printed traces around it, and `!` on both outcomes.
+    fn scenario_try(&mut self, _d: usize) -> S {
+        self.label("scenario-try");
+        let tryfns: Vec<FuncDef> = self.funcs.iter().filter(|f| f.name.starts_with("tryfn")).cloned().collect();
+        if tryfns.is_empty() {
+            return S::Print(E::Int(23));
+        }
+        let f = tryfns[self.t.n(tryfns.len())].clone();
+        let mut args = vec![];
+        for _ in &f.params {
+            args.push(if self.t.n(3) == 0 { E::None(T::Int) } else { E::Some(Box::new(E::Int(self.t.n(3) as i64))) });
+        }
+        let call = E::Call(f.name.clone(), args);
+        match self.t.n(3) {
+            0 => {
+                let v = self.fresh("m");
+                S::Print(E::Match(Box::new(call), vec![(P::Some(Box::new(P::Bind(v.clone()))), E::Var(v)), (P::None, E::Int(-1))]))
+            }
+            1 => {
+                self.label("unwrap-call");
+                S::Print(E::Unwrap(Box::new(call)))
+            }
+            _ => S::Print(call),
+        }
+    }
+
+    fn gen_try_funcs(&mut self) {
+        // fn tr(n) prints n and returns it: makes evaluation order and early exit observable
+        self.funcs.push(FuncDef {
+            name: "tr".into(),
+            params: vec![("n".into(), T::Int)],
+            ret: T::Int,
+            body: Block { stmts: vec![S::Print(E::Var("n".into()))], tail: Some(Box::new(E::Var("n".into()))) },
+            mutates_len: false,
+        });
+        let nf = 1 + self.t.n(3);
+        for i in 0..nf {
+            let np = 1 + self.t.n(3);
+            let params: Vec<(String, T)> = (0..np).map(|j| (format!("o{j}"), T::Opt(Box::new(T::Int)))).collect();
+            let mut trace = 0i64;
+            let mut tr = |g: &mut G| {
+                trace += 1;
+                let _ = g;
+                E::Call("tr".into(), vec![E::Int(trace)])
+            };
+            let tryp = |g: &mut G| E::Try(Box::new(E::Var(format!("o{}", g.t.n(np)))));
+            let add = |a: E, b: E| E::Bin(Op::Add, Box::new(a), Box::new(b));
+            let mut stmts = vec![S::Print(E::Str(format!("enter{i}")))];
+            let mut acc = self.fresh("x");
+            stmts.push(S::Let { mutable: false, name: acc.clone(), ty: T::Int, annotate: false, e: E::Int(0) });
+            let k = 1 + self.t.n(4);
+            for _ in 0..k {
+                let nx = self.fresh("x");
+                let e = match self.t.n(7) {
+                    // left / right operand with pending evaluated operands
+                    0 => add(add(tr(self), tryp(self)), tr(self)),
+                    1 => add(tr(self), add(tr(self), tryp(self))),
+                    // argument position
+                    2 => E::Call("tr".into(), vec![add(tryp(self), E::Int(1))]),
+                    // index position
+                    3 => E::Index(Box::new(E::ArrLit(vec![E::Int(10), E::Int(20), E::Int(30), E::Int(40)])), Box::new(tryp(self))),
+                    // condition
+                    4 => E::If(Box::new(E::Bin(Op::Gt, Box::new(tryp(self)), Box::new(E::Int(0)))), Block { stmts: vec![], tail: Some(Box::new(tr(self))) }, Block { stmts: vec![], tail: Some(Box::new(E::Int(0))) }),
+                    // match scrutinee
+                    5 => E::Match(Box::new(tryp(self)), vec![(P::Int(0), tr(self)), (P::Wild, E::Int(2))]),
+                    // nested call
+                    _ => E::Call("tr".into(), vec![E::Call("tr".into(), vec![tryp(self)])]),
+                };
+                stmts.push(S::Let { mutable: false, name: nx.clone(), ty: T::Int, annotate: false, e: add(E::Var(acc.clone()), e) });
+                acc = nx;
+            }
+            stmts.push(S::Print(E::Str(format!("exit{i}"))));
+            let body = Block { stmts, tail: Some(Box::new(E::Some(Box::new(E::Var(acc))))) };
+            self.funcs.push(FuncDef { name: format!("tryfn{i}"), params, ret: T::Opt(Box::new(T::Int)), body, mutates_len: false });
+        }
+    }
+
+    fn gen_maker_funcs(&mut self) {
+        let n = 1 + self.t.n(2);
+        for i in 0..n {
+            let body = Block {
+                stmts: vec![S::Let { mutable: false, name: "base".into(), ty: T::Int, annotate: false, e: E::Bin(Op::Mul, Box::new(E::Var("k".into())), Box::new(E::Int(2 + i as i64))) }],
+                tail: Some(Box::new(E::Lam(vec![("n".into(), T::Int)], Box::new(E::Bin(Op::Add, Box::new(E::Bin(Op::Add, Box::new(E::Var("n".into())), Box::new(E::Var("k".into())))), Box::new(E::Var("base".into()))))))),
+            };
+            self.funcs.push(FuncDef { name: format!("mk{i}"), params: vec![("k".into(), T::Int)], ret: T::Fun(vec![T::Int], Box::new(T::Int)), body, mutates_len: false });
+        }
+    }
+
+    fn stmt_plain(&mut self, d: usize) -> S {
         self.nodes += 1;
         let assignable = self.assignable();
         let arrs: Vec<VarInfo> = self.visible().into_iter().filter(|v| matches!(v.ty, T::Arr(_))).collect();
@@ -789,7 +1038,7 @@ impl<'a> G<'a> {
         // [let, print, assign, opassign, if, while, for-int, for-arr, for-range, break/continue, push, index-assign, expr-call, letpat, return]
         let w = [
             8,
-            6,
+            8,
             if assignable.is_empty() { 0 } else { 4 },
             if assignable.iter().any(|(_, t)| *t == T::Int) { 3 } else { 0 },
             if d > 0 { 3 } else { 0 },
@@ -1007,7 +1256,7 @@ impl<'a> G<'a> {
 
     fn gen_types(&mut self) {
         if self.fl.structs {
-            let n = self.t.n(3);
+            let n = self.t.n(4);
             for i in 0..n {
                 let nf = 1 + self.t.n(3);
                 let fields = (0..nf).map(|j| (format!("f{j}"), self.data_ty(1))).collect();
@@ -1039,6 +1288,12 @@ impl<'a> G<'a> {
         if !self.fl.funcs {
             return;
         }
+        if self.fl.bias == 1 {
+            self.gen_maker_funcs();
+        }
+        if self.fl.bias == 2 {
+            self.gen_try_funcs();
+        }
         let n = self.t.n(4);
         for i in 0..n {
             let recursive = self.t.n(3) == 0;
@@ -1051,7 +1306,8 @@ impl<'a> G<'a> {
                 let t = if self.fl.lambdas && self.t.flip(1, 8) { T::Fun(vec![T::Int], Box::new(T::Int)) } else { self.data_ty(2) };
                 params.push((format!("a{j}"), t));
             }
-            let ret = if self.fl.options && self.fl.try_op && self.t.flip(1, 5) { T::Opt(Box::new(self.scalar_ty())) } else { self.data_ty(1) };
+            let opt_den = if self.fl.bias == 2 { 2 } else { 5 };
+            let ret = if self.fl.options && self.fl.try_op && self.t.flip(1, opt_den) { T::Opt(Box::new(self.scalar_ty())) } else { self.data_ty(1) };
             let name = if recursive { format!("rec{i}") } else { format!("fun{i}") };
             self.scopes = vec![params.iter().map(|(n, t)| VarInfo { name: n.clone(), ty: t.clone(), mutable: false, captured: false }).collect()];
             self.fnctx = Some(FnCtx { ret: ret.clone(), rec: if recursive { Some((name.clone(), "fuel".into())) } else { None }, in_else_of_fuel_guard: false });
